@@ -137,7 +137,7 @@ func c09GenExpanded(t *rapid.T) c09ExpCase {
 	n := rapid.IntRange(3, 16).Draw(t, "steps")
 	for i := 0; i < n; i++ {
 		c.Steps = append(c.Steps, c09ExpStep{Ent: rapid.IntRange(0, len(pool.Ents)-1).Draw(t, "ent"),
-			Own: rapid.IntRange(0, 4).Draw(t, "own") != 0, Ref: i < 2})
+			Own: rapid.IntRange(0, 4).Draw(t, "own") != 0, Ref: i < 1})
 	}
 	return c
 }
